@@ -10,7 +10,9 @@ returns every alternative and the caller keeps those the real mixer matches.
 """
 from fractions import Fraction
 
-TOL = Fraction(1, 10 ** 6)
+# float error of the real clock is far below this: counts stay below ~1e4
+# (ulp 2e-12) over at most a few thousand additions
+TOL = Fraction(1, 10 ** 7)
 HALF = Fraction(1, 2)
 END = object()
 
